@@ -157,6 +157,7 @@ class Sim(object):
         self.open_files = []
         self.fds = {}
         self.created = set()  # rel paths this process created
+        self.touched = set()  # rel paths this process opened for writing / renamed onto / removed
         self.write_in_flight_at_fault = False
         self.step_sites = [] if record_steps else None
         self.step_at_event = []  # step counter value at each event
@@ -181,6 +182,8 @@ class Sim(object):
             raise Killed()
         n = len(self.events)
         self.events.append({"n": n, "kind": kind, "path": rel, "detail": detail})
+        if rel is not None and kind in WRITE_EVENT_KINDS:
+            self.touched.add(rel)
         self.step_at_event.append(self.steps)
         f = self.fault
         if f is not None and self.fired is None and f.get("where") == "event" and f.get("index") == n:
